@@ -4,10 +4,12 @@ pub mod cfgsim;
 pub mod config;
 pub mod auth;
 pub mod curve;
+pub mod delevsim;
 pub mod hops;
 pub mod oracle;
 pub mod panic;
 pub mod prefee;
+pub mod privsim;
 pub mod xrate;
 pub mod tx;
 
@@ -25,6 +27,8 @@ pub fn lookup(name: &str) -> Option<fn(&str) -> String> {
         "oracleliq" => oracle::run_liq,
         "config" => config::run,
         "cfgsim" => cfgsim::run,
+        "privsim" => privsim::run,
+        "delevsim" => delevsim::run,
         "auth" => auth::run,
         "txconsts" => tx::run_consts,
         "txval" => tx::run_val,
